@@ -144,6 +144,7 @@ def register_calc_attenuation(reg):
            'tan': {'kind': 'pure', 'result': 'real', 'doc': 'libc tan'}}
     reg.contract(A, "SingleRayAttenuator._calc_attenuation", PROP, name='arguments', externals=ext,
         requires=["not is_none(self._beam)", "not is_none(self._plasma)"],
+        flags={'replay_decides': True},
         loops={0: dict(index='k', invariant=["0 <= k", "length(xaxis) == nbeam and length(yaxis) == nbeam and length(zaxis) == nbeam and length(beam_z) == nbeam"])},
         ensures=[("attenuation_call", call_cases(['_beam_attenuation'], [
             ("True", [('_beam_attenuation', [None, None, None, None, "self._beam._energy", "self._beam._power", "self._beam._element.atomic_weight",
